@@ -5,6 +5,7 @@ Variables (name value : Type).
 Variable eqb : name -> name -> bool.
 Variable num : name -> option nat.
 Variable blank : value -> value.
+Variable unescapable : value -> bool.
 Hypothesis eqb_spec : forall a b, eqb a b = true <-> a = b.
 
 Notation param := (param name value).
@@ -12,7 +13,7 @@ Notation has := (has name value eqb).
 Notation rem := (rem name value eqb blank).
 Notation hidden_names := (hidden_names name value).
 Notation Hidden := (Hidden name value num).
-Notation add := (add name value eqb num blank).
+Notation add := (add name value eqb num blank unescapable).
 Notation remove := (remove name value eqb blank).
 
 Lemma eqb_refl a : eqb a a = true.
@@ -100,28 +101,42 @@ Qed.
 Lemma hidden_names_app (a b : list param) : hidden_names (a ++ b) = hidden_names a ++ hidden_names b.
 Proof. unfold Template.hidden_names. now rewrite filter_app, map_app. Qed.
 
-Lemma set_last_hidden n v (ps : list param) : hidden_names (set_last _ _ eqb n v ps) = hidden_names ps.
+Lemma hidden_names_map_show (t : list param) : hidden_names (map (show _ _) t) = [].
+Proof. induction t as [|p t IH]; [reflexivity|]. cbn [map]. rewrite hn_cons. cbn. exact IH. Qed.
+
+Lemma set_last_hidden n v (ps : list param) :
+  exists k, hidden_names (set_last _ _ eqb unescapable n v ps) = firstn k (hidden_names ps).
 Proof.
-  induction ps as [|p t IH]; cbn [Template.set_last]; [reflexivity|].
-  destruct (eqb n (pn _ _ p) && negb (has n t)); rewrite !hn_cons; cbn; [reflexivity|]. now rewrite IH.
+  induction ps as [|p t IH]; cbn [Template.set_last]; [exists 0; reflexivity|].
+  destruct (eqb n (pn _ _ p) && negb (has n t)).
+  - destruct (negb (shown _ _ p) && unescapable v) eqn:E.
+    + exists 0. rewrite hn_cons. cbn. apply hidden_names_map_show.
+    + exists (length (hidden_names (p :: t))). rewrite firstn_all. rewrite !hn_cons. cbn. reflexivity.
+  - destruct IH as [k Hk]. rewrite !hn_cons. destruct (shown _ _ p).
+    + exists k. exact Hk.
+    + exists (S k). cbn [firstn]. now rewrite Hk.
 Qed.
 
 Theorem hidden_inv_add_lemma n v ps : Hidden ps -> Hidden (add n v ps).
 Proof.
   intros H. unfold Template.add. destruct (has n ps).
-  - unfold Template.Hidden. rewrite set_last_hidden. now apply hidden_inv_remove_lemma.
+  - unfold Template.Hidden. destruct (set_last_hidden n v (rem n true false ps)) as [k ->].
+    apply Hidden_prefix. now apply hidden_inv_remove_lemma.
   - destruct (num n) as [k|] eqn:En.
     + rewrite (expected_spec ps H). destruct (Nat.eqb_spec (S (length (hidden_names ps))) k) as [<-|Hne]; cbn [negb].
-      * unfold Template.Hidden in *. rewrite hidden_names_app. unfold Template.hidden_names at 2 4. cbn.
-        rewrite map_app, app_length. cbn [map length]. rewrite En. rewrite seq_app, map_app. cbn [seq map].
-        rewrite H. f_equal.
+      * destruct (unescapable v).
+        -- unfold Template.Hidden in *. rewrite hidden_names_app. unfold Template.hidden_names at 2 4. cbn.
+           now rewrite app_nil_r.
+        -- unfold Template.Hidden in *. rewrite hidden_names_app. unfold Template.hidden_names at 2 4. cbn.
+           rewrite map_app, app_length. cbn [map length]. rewrite En. rewrite seq_app, map_app. cbn [seq map].
+           rewrite H. f_equal.
       * unfold Template.Hidden in *. rewrite hidden_names_app. unfold Template.hidden_names at 2 4. cbn.
         now rewrite app_nil_r.
     + unfold Template.Hidden in *. rewrite hidden_names_app. unfold Template.hidden_names at 2 4. cbn.
       now rewrite app_nil_r.
 Qed.
 
-Theorem hidden_inv_reachable_lemma ops : forall ps, Hidden ps -> Hidden (run _ _ eqb num blank ps ops).
+Theorem hidden_inv_reachable_lemma ops : forall ps, Hidden ps -> Hidden (run _ _ eqb num blank unescapable ps ops).
 Proof.
   induction ops as [|o ops IH]; intros ps H; cbn [Template.run fold_left]; [exact H|].
   apply IH. destruct o as [n v|n keep]; cbn [Template.step].
@@ -155,10 +170,14 @@ Proof.
   rewrite Ep in Hneg. discriminate.
 Qed.
 
-Lemma has_set_last n v m (ps : list param) : has m (set_last _ _ eqb n v ps) = has m ps.
+Lemma has_set_last n v m (ps : list param) : has m (set_last _ _ eqb unescapable n v ps) = has m ps.
 Proof.
   induction ps as [|p t IH]; cbn [Template.set_last]; [reflexivity|].
-  destruct (eqb n (pn _ _ p) && negb (has n t)); [reflexivity|]. unfold Template.has in *. cbn. now rewrite IH.
+  destruct (eqb n (pn _ _ p) && negb (has n t)).
+  - destruct (negb (shown _ _ p) && unescapable v); [|reflexivity].
+    unfold Template.has. cbn [existsb Template.pn]. f_equal. clear IH.
+    induction t as [|q t IHt]; [reflexivity|]. cbn [map existsb Template.show Template.pn]. now rewrite IHt.
+  - unfold Template.has in *. cbn. now rewrite IH.
 Qed.
 
 Lemma has_rem_keep n : forall ps flag, has n ps = true -> has n (rem n true flag ps) = true.
